@@ -2,6 +2,7 @@ package main
 
 import (
 	"fmt"
+	"go/constant"
 	"go/token"
 	"sort"
 	"strings"
@@ -212,6 +213,17 @@ func c07(r *Report, s *Sem) {
 					table[cs] = k
 				} else if cs, ok := constString(stripConv(c.X)); ok {
 					table[cs] = k
+				}
+			}
+		}
+		if len(table) != 7 {
+			// not a switch: evaluate the function on each state (consteval.go); an input it cannot evaluate stays missing
+			table = map[string]int64{}
+			for _, st := range h.allStates {
+				if v, ok := p.constEval(stepFn, []constant.Value{constant.MakeString(st)}); ok {
+					if k, exact := constant.Int64Val(v); exact {
+						table[st] = k
+					}
 				}
 			}
 		}
